@@ -45,6 +45,11 @@ HDRS = [0x51, 0x52, None]
 ECUS = ["E1", "E2"]
 IDS = [0x100, 0x200, 0x300]
 
+def spec_pgn(i):
+    pf = (i >> 16) & 0xFF
+    return (((i >> 25) & 1) << 17) + (((i >> 24) & 1) << 16) + (pf << 8) + (((i >> 8) & 0xFF) if pf >= 240 else 0)
+
+
 UNIVERSES = {
     # 3 ids x 2 formats x 3 names (all 29-bit ids of this universe have PGN 0)
     "full": dict(keys=[(i, e) for e in (False, True) for i in IDS], names=[0, 1, 2], pgns=[0, 0xFEF1], hdrs=[0x51, 0x52]),
@@ -60,6 +65,21 @@ UNIVERSES = {
 UNIVERSES["edge"] = dict(keys=[(0, False), (0, True), (0x7FF, False), (0x1FFFFFFF, True), (0x100, False)], names=[0, 1, 2],
                          pgns=[0, 0x3FFFF, 0xFEF1], hdrs=[0, 1, 0xFFFFFFFF], hdr_of=[0, 1, None])
 UNIVERSES["rand"]["hdrs"] = [0, 0x51, 0x52, 0x53]
+# near-miss twins: keys that differ from another key of the universe in exactly ONE bit - every single bit of a 29-bit PDU2
+# identifier (priority, EDP, DP, PF, PS, SA), the PGN-relevant bits of a PDU1 identifier, 11-bit identifiers one bit apart, and
+# the PGN of every one of them as a probe; names and header ids that differ in one character / bit.  A lookup that compares
+# fewer bits than the key has answers with the twin.
+TWIN_BASE, TWIN_BASE1 = 0x18FEF100, 0x18EF1200
+UNIVERSES["twins"] = dict(
+    keys=[(0x100, False), (0x101, False), (0x500, False), (TWIN_BASE, True)] + [(TWIN_BASE ^ (1 << b), True) for b in range(29)] +
+         [(TWIN_BASE1, True)] + [(TWIN_BASE1 ^ (1 << b), True) for b in (8, 16, 24, 25)],
+    names=[0, 1, 2, "Fra", "FrA_"], hdrs=[0x51, 0x50, 0x151, 0])
+UNIVERSES["twins"]["pgns"] = sorted({spec_pgn(i) for i, e in UNIVERSES["twins"]["keys"] if e})
+# one universe per field of the identifier for the exhaustive twin sweeps: the base and its twin in that field
+TWIN_FIELDS = [("priority", 26), ("EDP", 25), ("DP", 24), ("PF", 16), ("PS", 8), ("SA", 0)]
+for _f, _b in TWIN_FIELDS:
+    UNIVERSES["twin-" + _f] = dict(keys=[(TWIN_BASE, True), (TWIN_BASE ^ (1 << _b), True)], names=[0, 1],
+                                   pgns=sorted({spec_pgn(TWIN_BASE), spec_pgn(TWIN_BASE ^ (1 << _b))}), hdrs=[0x51])
 UNIVERSES["readers"] = dict(UNIVERSES["rand"], names=[0, 1, 2, "FRAME_FrA", "FRAME_FrB", "FRAME_FrC", "Ren1", "Ren2"], hdrs=[0x51])
 
 
@@ -75,11 +95,6 @@ KEY_WHAT = {
     "bystander-lookup-changed": "a lookup on a matrix answers differently than before although no operation was addressed to that matrix in between",
     "frame-object-shared-between-matrices": "one Frame object sits in the frame lists of two matrices (an edit through one matrix changes the lookups of the other)",
 }
-
-
-def spec_pgn(i):
-    pf = (i >> 16) & 0xFF
-    return (((i >> 25) & 1) << 17) + (((i >> 24) & 1) << 16) + (pf << 8) + (((i >> 8) & 0xFF) if pf >= 240 else 0)
 
 
 def dbc_text(frames, ecus):
@@ -789,7 +804,7 @@ def random_history(runner, rng, every_step, readers=False):
     one ARXML/KCD file carrying equally named frames, or one DBC/DBF/SYM/JSON file); the operations edit ONE matrix
     at a time (rename, identifier changes, delete, add, append); copy/merge/add_ecu stay out because these frames have
     signals, transmitters and attribute definitions, whose copying is C12's subject.  Returns (ops, result)."""
-    uni = "edge" if readers == "edge" else "readers" if readers else "rand"
+    uni = readers if readers in ("edge", "twins") else "readers" if readers else "rand"
     readers = readers is True
     U = UNIVERSES[uni]
     keys = U["keys"]
@@ -819,7 +834,11 @@ def random_history(runner, rng, every_step, readers=False):
     if every_step:
         ops.append(["obs"])
     std_ids = [k[0] for k in keys if not k[1]]
-    pool = keys[:2] if uni == "edge" else [k for k in keys if k[0] in (0x100, 0x200, 0x18FEF100, 0x0CFEF133)]
+    if uni == "twins":
+        # most of this history's frames and probes come from one identifier and its twin in one bit
+        pool = [(TWIN_BASE, True), (TWIN_BASE ^ (1 << rng.randrange(29)), True)]
+    else:
+        pool = keys[:2] if uni == "edge" else [k for k in keys if k[0] in (0x100, 0x200, 0x18FEF100, 0x0CFEF133)]
     state = dict(left=30, pending=[])
 
     def pick_name(db, present):
@@ -1101,6 +1120,21 @@ def edge_worlds():
     ]
 
 
+def twin_worlds():
+    """fixed histories (universe "twins"): for every bit of the 29-bit identifier, a matrix that holds only the twin, then both,
+    then only the base (twin deleted), then the base moved onto the twin's identifier; everything of the universe - the PGN of
+    every twin included - is looked up after each step"""
+    out = []
+    for b in range(29):
+        t = TWIN_BASE ^ (1 << b)
+        out.append(("twin in bit %d" % b, [["new"], ["add", 0, t, True, 0], ["obs"], ["add", 0, TWIN_BASE, True, 1], ["obs"],
+                                            ["delp", 0, 0], ["obs"], ["setid", 0, 0, t, True], ["obs"]]))
+    out.append(("11-bit twins, names and header ids one step apart",
+                [["new"], ["add", 0, 0x101, False, "Fra"], ["obs"], ["sethdr", 0, 0, 0x50], ["obs"], ["add", 0, 0x100, False, 0], ["obs"],
+                 ["ren", 0, "Fra", "FrA_"], ["obs"], ["inpl", 0, 0, 0x500], ["obs"]]))
+    return out
+
+
 def reader_worlds():
     """fixed worlds out of every reader: the same frame on 2, 3 and 4 buses of one ARXML / KCD file, one matrix edited
     (rename, new identifier, identifier changed in place, delete, add), everything looked up everywhere after each step"""
@@ -1134,7 +1168,8 @@ def run(chk):
                 "matrices are what canmatrix.formats.loads returns for an ARXML/KCD file written from 2..4 buses carrying equally named frames, "
                 "or for a DBC/DBF/SYM/JSON file; one matrix is edited at a time, no Frame object may sit in two matrices, bystanders keep "
                 "their frame lists and their lookup answers. EDGE KEYS: fixed, exhaustive and random histories over identifier 0 in both "
-                "formats, the largest 11/29-bit identifiers, header ids 0/1/2^32-1/none incl. re-numbering (sethdr), PGN 0 and 0x3FFFF. non-trivial = at least one edit before a lookup; distinct by operation list")
+                "formats, the largest 11/29-bit identifiers, header ids 0/1/2^32-1/none incl. re-numbering (sethdr), PGN 0 and 0x3FFFF. NEAR-MISS TWINS: fixed, exhaustive (per identifier field) and random histories over a 29-bit identifier and its "
+                "twin in every single bit (and 11-bit ids, names, header ids one step apart), the PGN of every twin probed. non-trivial = at least one edit before a lookup; distinct by operation list")
     ok = chk.build_and_audit()
     runner = Runner()
     nproc = max(1, min(core.NPROC, int(os.environ.get("VERIF_C10_PROCS", "12"))))
@@ -1150,17 +1185,19 @@ def run(chk):
     # ---- corpus / regressions ----
     corpus = list(REGRESSIONS) + reader_worlds()
     edge = edge_worlds()
+    twins = twin_worlds()
     for p in sorted(glob.glob(os.path.join(core.VERIF, "corpus", "C10", "*.json"))):
         try:
             corpus.append((os.path.basename(p), json.load(open(p))["ops"]))
         except Exception as ex:  # noqa
             chk.notes.append("corpus file %s unreadable: %s" % (p, ex))
     reg_results = []
-    for name, ops in corpus + edge:
-        uni = "edge" if (name, ops) in edge else "readers" if any(o[0] == "load" for o in ops) else "rand"
+    for name, ops in corpus + edge + twins:
+        uni = "edge" if (name, ops) in edge else "twins" if (name, ops) in twins else \
+            "readers" if any(o[0] == "load" for o in ops) else "rand"
         res = runner.run(ops, uni)
         chk.case(("reg", json.dumps(ops)), True)
-        chk.count("edge-fixed-world" if uni == "edge" else "regression")
+        chk.count(uni + "-fixed-world" if uni in ("edge", "twins") else "regression")
         note(res, ops, uni)
         if not res["failures"]:
             reg_results.append((ops, res))
@@ -1188,6 +1225,11 @@ def run(chk):
                   "afterwards), every operation but remove_frame/rename_frame/add_ecu plus header re-numbering (the first identifier a "
                   "history uses is 0)", nmat=1, uni="edge", ids=[0, 0x7FF], fmts=F2, names=[0, 1, 2], ops=LEAN + ["sethdr"],
              hdr_vals=[0, 1, None], length=4 if thorough else 3))
+    for fname, bit in TWIN_FIELDS:
+        sweeps.append(
+            dict(name="1 matrix, near-miss twins: 0x%X and its twin in the %s field (bit %d), 29-bit format, lean operations; the PGNs of "
+                      "both are probed" % (TWIN_BASE, fname, bit), nmat=1, uni="twin-" + fname,
+                 ids=[TWIN_BASE, TWIN_BASE ^ (1 << bit)], fmts=[True], names=[0, 1], ops=LEAN, length=4 if thorough else 3))
     if thorough:
         sweeps += [
             dict(name="1 matrix, every operation but remove_frame/rename_frame/add_ecu, 2 ids x 2 formats x 2 names", nmat=1, uni="small",
@@ -1246,15 +1288,17 @@ def run(chk):
         nrand = 1600 if not thorough else 24000
         nread = 500 if not thorough else 6000
         nedge = 400 if not thorough else 5000
-        seeds = [chk.rng.randrange(1 << 60) for _ in range(nrand + nread + nedge)]
+        ntwin = 300 if not thorough else 4000
+        seeds = [chk.rng.randrange(1 << 60) for _ in range(nrand + nread + nedge + ntwin)]
         chunks = [(seeds[i:i + 50], (i // 50) % 2 == 0, ok, False) for i in range(0, nrand, 50)]
         chunks += [(seeds[i:i + 25], (i // 25) % 2 == 0, ok, True) for i in range(nrand, nrand + nread, 25)]
         chunks += [(seeds[i:i + 50], (i // 50) % 2 == 0, ok, "edge") for i in range(nrand + nread, nrand + nread + nedge, 50)]
+        chunks += [(seeds[i:i + 25], (i // 25) % 2 == 0, ok, "twins") for i in range(nrand + nread + nedge, nrand + nread + nedge + ntwin, 25)]
         results = pool.imap(worker_random, chunks, chunksize=1) if pool else map(worker_random, chunks)
         reader_stats = dict(load_failed=0, memo_after_load=0)
         for (_, _, _, readers), (slim, ties, ntie, rstat) in zip(chunks, results):
             tie_n += ntie
-            uni = tag = "edge" if readers == "edge" else "readers" if readers else "rand"
+            uni = tag = readers if readers in ("edge", "twins") else "readers" if readers else "rand"
             for k in reader_stats:
                 reader_stats[k] += rstat[k]
             chk.count("tie-modulo-choice-among-carriers", rstat["choice"])
@@ -1302,9 +1346,10 @@ def run(chk):
             chk.notes.append("a failing history did not fail again when re-run alone: %s" % json.dumps(h))
             continue
         cls = res["failures"][0][0]
-        if seen.get((uni == "edge", cls), 0) >= 6:
+        stream = "edge" if uni == "edge" else "twin" if uni.startswith("twin") else ""
+        if seen.get((stream, cls), 0) >= 6:
             continue
-        seen[(uni == "edge", cls)] = seen.get((uni == "edge", cls), 0) + 1
+        seen[(stream, cls)] = seen.get((stream, cls), 0) + 1
         small = shrink(runner, h, uni, cls)
         r2 = runner.run(small, uni)
         f = r2["failures"][0] if r2["failures"] else res["failures"][0]
@@ -1312,6 +1357,9 @@ def run(chk):
         if uni == "edge":
             # probes with keys at the edge of their range have their own failure classes
             key, what = "edge-key-" + key, "with keys at the edge of their range (identifier 0, header id 0, largest identifiers, PGN 0): " + what
+        elif uni.startswith("twin"):
+            # probes with near-miss twins (keys one bit apart) likewise
+            key, what = "twin-key-" + key, "with a near-miss twin around (a key that differs from the requested one in a single bit): " + what
         chk.violation(key, what, dict(universe=uni, ops=small, failing_step=f[1], failing_lookup=f[2],
                                                           how_to_replay="harness/p_c10.py: Runner().run(ops, universe)"),
                       f[3] if f[3] else "None (no frame of the matrix carries the key)", f[4])
